@@ -296,6 +296,41 @@ CHECKS = {
 NOT_YET = {}
 
 
+# what rounds 2 and 3 of the seeded changes added to each check (appended to the text above)
+LATER = {
+ 'C01': 'Also: a string-form compound command with environment=, and words on which the real quoting functions '
+        'drift from Quote.tla (Escape_Trace.tla) as directed words at every position.',
+ 'C02': 'Also: a string-form compound command with environment=, and drift-directed words as for C01.',
+ 'C03': 'Scripts also contain implicit precompiled-header steps next to generated headers, extra_deps=, explicitly '
+        'passed header files and tests whose command names further built files.',
+ 'C04': 'Roles also cover the name as an install / uninstall argument (executable, header). The seven escape functions '
+        'of the writers are compared with Quote.tla on all short words (Escape_Trace.tla); drifting inputs become names.',
+ 'C05': 'Targets in sub-directories (within_directory with non-empty target directory), sources sharing the tail of the '
+        'target directory, names and stems with blank, # and $.',
+ 'C06': 'Every script carries global compile, link and static-link options, which meet the flags from the environment.',
+ 'C07': 'A precompiled-header mode (Incr.tla constant Pch), a second source under paths with blank / # / $, and one '
+        'directed include-build-drop-delete-recreate history per in-scope header name and backend.',
+ 'C08': 'Variants include a tree of submodules (every script and options.bfg edited), and directed two-step histories '
+        'in which a first change must not disable the detection of the second.',
+ 'C09': 'Half of the end-to-end histories name the compiler by a bare command name resolved through the configure-time '
+        'PATH (C++ compiler guessed as its sibling) and run later steps with a PATH without compilers.',
+ 'C11': 'Every second leaf directory is a symbolic link to a populated directory outside the tree; every second case '
+        'first uses the same filter with dist=False.',
+ 'C12': 'All ordered triples of nine related locations for commonprefix / uniquetrees.',
+ 'C13': 'The trailer uses every builtin that makes a file object (zoo.py), a step with outputs in several directories, '
+        'a relative -I in the configured CPPFLAGS; one project per backend is configured with the real gcc.',
+ 'C15': 'A versioned shared library reached only through another shared library is part of the run-time closure; the '
+        'installed program is started with the build directory moved away; documented leaf placement per kind; every '
+        'configured directory is relocated below the scratch directory.',
+ 'C16': 'The library option also takes pre-built library files (six names, a decoy beside the shared ones); the pch '
+        'option also covers shared and static libraries.',
+ 'C18': 'The trailer uses every builtin that makes a file object out of a source-tree file (zoo.py); after the first '
+        'archive single tree changes (extra_dist directory, extra file, find_files match) must reach the next archive.',
+ 'C19': 'Project arguments whose names start with x (x11, xml) with the --x- spelling.',
+ 'C20': 'MSBuild histories use several explicit defaults.',
+}
+
+
 def main():
     props = [json.loads(l) for l in open(os.path.join(VERIF, 'properties.jsonl'))]
     checks = []
@@ -311,7 +346,8 @@ def main():
                 'evidence_file': '/verif/evidence/%s.json' % pid,
                 'replay_cmd_template': './check %s --replay {path}' % pid,
                 'engine': 'tlc+harness',
-                'level_claimed': {'category': 'model_checking', 'text': c['text'],
+                'level_claimed': {'category': 'model_checking',
+                                  'text': c['text'] + (' ' + LATER[pid] if pid in LATER else ''),
                                   'design_ref': 'DESIGN.md section ' + c['design']},
                 'level_note': c['note'],
                 'technique': c['technique'],
